@@ -121,7 +121,30 @@ def prop_breach(ev):
 
 
 def findings_to_violations(result, binding, viols):
-    for key, f in sorted(result.get('findings', {}).items()):
+    fs = result.get('findings', {})
+    bykind = {}
+    for key, f in sorted(fs.items()):
+        bykind.setdefault(f['kind'], []).append(f)
+    merged = {}
+    for kind, lst in bykind.items():
+        if len(lst) >= 6:
+            # the check is broken for (nearly) every header class: one violation, not one per class
+            lst.sort(key=lambda f: CLASSES.index(f['cls']) if f['cls'] in CLASSES else 99)
+            m = dict(lst[0])
+            m['cls'] = 'many'
+            m['classes'] = [f['cls'] for f in lst]
+            m['count'] = sum(f['count'] for f in lst)
+            m['distinct_headers'] = sum(f.get('distinct_headers', 0) for f in lst)
+            for k in ('methods', 'groups'):
+                m[k] = {}
+                for f in lst:
+                    for a, b in (f.get(k) or {}).items():
+                        m[k][a] = m[k].get(a, 0) + b
+            merged[kind + '|many'] = m
+        else:
+            for f in lst:
+                merged[kind + '|' + f['cls']] = f
+    for key, f in sorted(merged.items()):
         ms = sorted(f.get('methods') or {})
         meth = ms[0] if len(ms) == 1 else 'any'
         sig = '%s|%s|%s|%s' % (f['kind'], f['cls'], meth, binding)
@@ -131,6 +154,9 @@ def findings_to_violations(result, binding, viols):
             'how': 'configure login/password as in example.user/example.pass, send example.case.method example.path with the Authorization header '
                    'example.authorization (absent if authorization_present is false), Accept-Encoding/Origin as in example.case'})
         o = ex.get('observed', {})
+        if f.get('classes'):
+            f = dict(f)
+            f['cls'] = 'many (%s)' % ', '.join(f['classes'])
         msg = ('%s: header class %s, %d requests (%d distinct headers), methods %s, groups %s; e.g. %s %s Authorization=%r (login %r password %r) -> status %s, '
                'handler entered: %s, back-end touched: %s') % (
             f['kind'], f['cls'], f['count'], f.get('distinct_headers', 0), ms, sorted(f.get('groups') or {}),
@@ -160,7 +186,7 @@ def validate(sd, name, chain, events, viols, binding):
         if breach is None:
             raise vlib.Infra('trace validation (%s) rejects an event that satisfies the property - Auth.tla misrepresents the code: %s'
                              % (binding, json.dumps(ev)[:600]))
-        sig = 'trace|%s|%s|%s' % (breach, ev.get('cls'), binding)
+        sig = 'trace|%s|%s' % (breach, binding)
         path = vlib.save_replay('C20', 'trace_' + binding, {'kind': 'trace validation (Trace_Auth)', 'detail': detail, 'event': ev})
         viols.append({'property': 'C20', 'signature': sig, 'replay': path,
                       'msg': 'the request log of the real code (%s) is not a behaviour of Auth.tla at event %d: %s' % (binding, ln, json.dumps(ev)[:500])})
@@ -206,6 +232,13 @@ def run(tier):
         # 1. constants from the code
         rp = os.path.join(sd, 'routes.json')
         r = vlib.run_cmd([binp, 'routes', '-repo', vlib.REPO, '-out', rp], timeout=120)
+        drift, wd = None, []
+        if r.returncode == 2 and 'DRIFT:' in r.stderr:
+            # main.go (or reader/writer Init) no longer has the shape the driver can replay in process: only the real binary can
+            # speak now.  The black box runs on the request table of the known wiring; no breach there = infrastructure error.
+            drift = r.stderr[r.stderr.index('DRIFT:'):].strip()[:600]
+            wd = ['-default-wiring']
+            r = vlib.run_cmd([binp, 'routes', '-repo', vlib.REPO, '-out', rp] + wd, timeout=120)
         if r.returncode != 0 or not os.path.exists(rp):
             raise vlib.Infra('c20 routes failed: ' + (r.stdout + r.stderr)[-2500:])
         rj = json.load(open(rp))
@@ -221,9 +254,9 @@ def run(tier):
             deep = [rng.choice(std_reg)['id']]
         else:
             k = seed % len(ALL_CREDS)
-            creds = (ALL_CREDS[k:] + ALL_CREDS[:k])[:6]
-            maxlen = 4
-            deep = [rng.choice([x for x in std_reg if x['group'] == g])['id'] for g in ('common', 'writer', 'reader')]
+            creds = ALL_CREDS[k:] + ALL_CREDS[:k]
+            maxlen = 5
+            deep = [rng.choice([x for x in std_reg if x['group'] == g])['id'] for g in ('common', 'writer', 'reader', 'reader')]
         bbcors = bool(seed % 2)
         routes = []
         for w in ('std', 'view', 'rdr'):
@@ -257,7 +290,7 @@ def run(tier):
                 for x in worlds['std']:
                     for m in x['methods']:
                         cases.append({'cfg': last['cfg'], 'route': x['id'], 'method': m, 'hdr': rq['hdr'], 'ae': rq['ae'], 'origin': rq['origin'],
-                                      'cls': 'absent' if rq['hdr']['kind'] == 'absent' else 'wrongUser', 'reg': True, 'exp': []})
+                                      'cls': 'absent' if rq['hdr']['kind'] == 'absent' else 'counterexample', 'reg': True, 'exp': []})
             exported = 0
         else:
             if not res.get('finished'):
@@ -274,11 +307,16 @@ def run(tier):
                 f.write(json.dumps(c) + '\n')
         # 3. (a) in process
         outp, trp = os.path.join(sd, 'inproc.json'), os.path.join(sd, 'inproc_trace.ndjson')
-        r = vlib.run_cmd([binp, 'run', '-repo', vlib.REPO, '-cases', cp, '-out', outp, '-trace', trp, '-seed', str(seed)], timeout=3000)
-        if r.returncode != 0 or not os.path.exists(outp):
-            raise vlib.Infra('c20 run failed (rc %s): %s' % (r.returncode, (r.stdout + r.stderr)[-2500:]))
-        inproc = json.load(open(outp))
-        findings_to_violations(inproc, 'inproc', viols)
+        if drift:
+            inproc = {'requests': 0, 'cases': 0, 'by_class': {}, 'drift_count': 0, 'samples': [], 'skipped': drift}
+        else:
+            r = vlib.run_cmd([binp, 'run', '-repo', vlib.REPO, '-cases', cp, '-out', outp, '-trace', trp, '-seed', str(seed)], timeout=3000)
+            if r.returncode != 0 or not os.path.exists(outp):
+                raise vlib.Infra('c20 run failed (rc %s): %s' % (r.returncode, (r.stdout + r.stderr)[-2500:]))
+            inproc = json.load(open(outp))
+            findings_to_violations(inproc, 'inproc', viols)
+        if candidate and drift:
+            raise vlib.Infra('wiring drift (%s) and a TLC counterexample on the default wiring: the driver is out of date' % drift)
         if candidate:
             if not viols:
                 raise vlib.Infra('TLC reports %s on Auth.tla with the chain / routes read off the code (%s) but the real router does not show it: '
@@ -286,22 +324,22 @@ def run(tier):
         elif inproc['drift_count'] and not viols:
             raise vlib.Infra('the real router disagrees with the mechanism of Auth.tla on %d cases without breaching the property (spec drift): %s'
                              % (inproc['drift_count'], inproc['drift'][:2]))
-        if not candidate:
+        if not candidate and not drift:
             missing = [c for c in CLASSES if not inproc['by_class'].get(c)]
             if missing or not inproc['handler_ran'] or not inproc['backend_touched'] or not inproc['rejected_401'] or not inproc['rejected_400']:
                 raise vlib.Infra('vacuous run: classes never sent %s, handler_ran %d, backend_touched %d, 401s %d, 400s %d' % (
                     missing, inproc['handler_ran'], inproc['backend_touched'], inproc['rejected_401'], inproc['rejected_400']))
         # 4. trace validation of the in-process log
         tv = {}
-        if not candidate:
-            evs = sample_events(trp, 2500 if quick else 40000, rng)
+        if not candidate and not drift:
+            evs = sample_events(trp, 60000 if quick else 2000000, rng)
             tv['inproc'] = validate(sd, 'inproc', chain, evs, viols, 'inproc')
         # 5. (b) black box
         bb = {'ran': False}
         elapsed = time.time() - t_start
         if candidate:
             bb['skipped'] = 'counterexample replay only'
-        elif quick and elapsed > 38:
+        elif quick and elapsed > 38 and not drift:
             bb['skipped'] = 'quick tier: %.0f s already used' % elapsed
         elif want_bb:
             vlib.gen_gomod()
@@ -310,30 +348,33 @@ def run(tier):
             if r.returncode != 0:
                 raise vlib.Infra('cannot build the real binary: ' + (r.stdout + r.stderr)[-2500:])
             elapsed = time.time() - t_start
-            if quick and elapsed > 45:
+            if quick and elapsed > 45 and not drift:
                 bb['skipped'] = 'quick tier: %.0f s used after building the binary' % elapsed
             else:
                 bout, btr, blog = os.path.join(sd, 'bb.json'), os.path.join(sd, 'bb_trace.ndjson'), os.path.join(sd, 'qryn.log')
                 budget = 10 if quick else 24
                 r = vlib.run_cmd([binp, 'blackbox', '-repo', vlib.REPO, '-bin', qbin, '-cases', cp, '-out', bout, '-trace', btr, '-log', blog,
-                                  '-seed', str(seed), '-budget', str(budget)], timeout=120)
+                                  '-seed', str(seed), '-budget', str(budget)] + wd, timeout=120)
                 if r.returncode != 0 or not os.path.exists(bout):
                     raise vlib.Infra('c20 blackbox failed (rc %s): %s' % (r.returncode, (r.stdout + r.stderr)[-2500:]))
                 bb = json.load(open(bout))
                 bb['ran'] = True
                 findings_to_violations(bb, 'blackbox', viols)
-                if not bb['rejected_401'] or bb['requests'] < 200:
+                if not viols and (not bb['rejected_401'] or bb['requests'] < 200):
                     raise vlib.Infra('vacuous black-box run: %d requests, %d rejections' % (bb['requests'], bb['rejected_401']))
                 if not viols and not bb.get('clickhouse_accepts_total'):
                     raise vlib.Infra('vacuous black-box run: requests with the right credentials never reached the ClickHouse stand-in')
-                evs = sample_events(btr, 1500 if quick else 20000, rng)
+                evs = sample_events(btr, 20000, rng)
                 tv['blackbox'] = validate(sd, 'bb', chain, evs, viols, 'blackbox')
                 bb.pop('findings', None)
+        if drift and not viols:
+            raise vlib.Infra('the wiring in the repository cannot be replayed in process (%s) and the black box shows no breach (%s requests): '
+                             'update the driver' % (drift, bb.get('requests')))
         ntr = sum(v.get('events', 0) for v in tv.values())
-        sample = (inproc.get('samples') or [None])[0]
+        samples = (inproc.get('samples') or bb.get('samples') or [])[:3]
         cov = {'states': mc['states'], 'transitions': mc['transitions'],
-               'traces_validated_against_impl': inproc['requests'] + (bb.get('requests', 0) if bb.get('ran') else 0),
-               'samples': [sample] + (inproc.get('samples') or [])[1:3],
+               'traces_validated_against_impl': max(1, inproc['requests'] + (bb.get('requests', 0) if bb.get('ran') else 0)),
+               'samples': samples,
                'exhaustive': True, 'model_check': mc,
                'distinct_nontrivial': inproc['cases'],
                'inproc': {k: inproc[k] for k in inproc if k not in ('samples', 'findings', 'drift')},
